@@ -52,7 +52,9 @@ RULE = ("handler declaration = labels x annotations criterion in {none, 'x', 'y'
         "[no field | field x value x old x new in the same six x field_needs_change] x when in {none, true-fn, false-fn}; "
         "object state = label x annotation x old field x new field in {absent, 'x', 'y'} (+ old=None) for changing causes, "
         "label x annotation x field for watching causes; plus extended sweeps (null values, callbacks is-None/truthy/not-None, "
-        "the private token, empty strings), cross-class pairs, random larger label maps, registries with duplicate "
+        "the private token, empty strings), the complete product value x old x new x field_needs_change over criteria "
+        "including the falsy-but-meaningful literals '', 0, False, [], {} against old x new over the same falsy-but-present "
+        "values (and '' label/annotation values and criteria, labels={}), in both tiers; cross-class pairs, random larger label maps, registries with duplicate "
         "registrations through kopf.on.*, and whole process_resource_event cycles; a case is distinct by "
         "(criterion kinds, documented per-part verdicts, real match/prematch) and non-trivial when the handler has at "
         "least one criterion")
@@ -61,7 +63,12 @@ TRUSTED = ["pyextract atom vocabularies for registries.match/prematch/_matches_*
            "the harness's reading of a cause (labels, annotations, old/new/body) and of a handler declaration into the model's "
            "records; Selector.check, webhook sub-resources and cause.kwargs are passed in as booleans, not modelled",
            "callbacks are pure boolean functions of the value (kwargs-dependent callbacks are `when=` booleans)"]
-ASSUMPTIONS = ["values are JSON (strings, integers, null, objects); Python bool/int coercion under == is not generated",
+ASSUMPTIONS = ["values are JSON (strings, integers, booleans, null, lists, objects; no floats). Python's bool/int coercion under == "
+               "(True == 1, False == 0) is modelled explicitly on the Lean side (J.pyEq) and compared with the real code by the "
+               "tie, but it is kept out of the judged set: the oracle leaves a case undefined when its documented verdict "
+               "(plain or under a named deviation) differs between Python == and type-strict JSON equality",
+               "a criterion is 'given' iff it `is not None` (model: VCrit.unset only for None; oracle: `is None` tests): "
+               "'', 0, False, [], {} are ordinary literals",
                "the reason/initial/deleted gate of ChangingRegistry.iter_handlers is C05's model (Kopf.C05.gate), reused here",
                "stealth is proved for a cycle whose consistency is pre-proven and whose patch starts empty "
                "(memory.remaining_patch is C08's subject)"]
@@ -662,7 +669,12 @@ def doc_parts(h: dict, st: dict, dev: frozenset = frozenset()) -> dict | None:
     a = doc_parts_eq(h, st, dev, py_eq)
     if a is None or not COERCIBLE(h, st):
         return a
-    return a if a == doc_parts_eq(h, st, dev, strict_eq) else None
+    # unjudged as soon as the coercion matters under the plain reading or under any named deviation
+    # (else a coercion effect would be mis-attributed to, or hidden by, a known finding)
+    for d in (frozenset(), frozenset({"old_counts"}), frozenset({"cb_token"}), frozenset({"old_counts", "cb_token"})):
+        if doc_parts_eq(h, st, d, py_eq) != doc_parts_eq(h, st, d, strict_eq):
+            return None
+    return a
 
 
 def _has_boolnum(x: Any) -> bool:
